@@ -102,7 +102,8 @@ InFunc == \E i \in 1..Len(stack) : stack[i].k = "func"
 Read(b) == IF b = 0 THEN reads ELSE reads \cup {b}
 
 \* ids of the local declarations visible at the current program point
-VisIds == UNION {{stack[i].vars[j].id : j \in 1..Len(stack[i].vars)} : i \in 1..Len(stack)}
+VisIdsOf(st) == UNION {{st[i].vars[j].id : j \in 1..Len(st[i].vars)} : i \in 1..Len(st)}
+VisIds == VisIdsOf(stack)
 
 \* as-built (Dev_InitialiserSeesNewLocal, completion): locals whose initialiser function encloses the point
 PendIds == {stack[i].pend.id : i \in {j \in 1..Len(stack) : "pend" \in DOMAIN stack[j]}}
@@ -252,7 +253,8 @@ If(u) ==
 ElseIf(u) ==
     /\ On("if") /\ More0 /\ Top.k = "if"
     /\ LET b == Lookup(Pop, u) IN
-       /\ prog' = Append(prog, [infn |-> InFunc, vis |-> VisIds, vispend |-> PendIds, top |-> AtTop, ingf |-> InGFunc, k |-> "elseif", u |-> u, b |-> b, alt |-> HideAlt(Pop, u)])
+       /\ prog' = Append(prog, [infn |-> InFunc, vis |-> VisIds, vispend |-> PendIds, top |-> AtTop, ingf |-> InGFunc, k |-> "elseif", u |-> u, b |-> b, alt |-> HideAlt(Pop, u),
+                               visx |-> VisIdsOf(Pop)])    \* visible inside the condition: the then-block's locals are gone
        /\ reads' = Read(b)
     /\ stack' = Append(Pop, Frame("if"))
     /\ UNCHANGED <<nid, nfile, gdefs, empty>>
